@@ -75,7 +75,15 @@ func c27Cases(a, b []int) {
 	}
 	sx.Case("c27.lcs", in, sx.List(parts...))
 	if len(a) > 0 && len(b) > 0 { // strings.Split("") yields one empty line; ids start at "l0"
-		sx.Case("c27.linediff", in, parseDiff(diff.LineDiff(lineText(a), lineText(b))))
+		out := func() (out string) {
+			defer func() {
+				if r := recover(); r != nil {
+					out = "panic"
+				}
+			}()
+			return parseDiff(diff.LineDiff(lineText(a), lineText(b)))
+		}()
+		sx.Case("c27.linediff", in, out)
 	}
 }
 
